@@ -25,6 +25,12 @@ import time
 
 from hypothesis import strategies as st
 
+RULE_SUFFIX = (
+    ' Every case drawn by a strategy (enumerated parts run under the default) also carries an ambient record drawn with it: 0-3 '
+    '-v flags on every sub-command (root logger level for direct calls) and a '
+    'process TZ (none, Europe/Berlin, a POSIX rule string, America/New_York, '
+    'Asia/Jakarta, WIB-7); neither may change any result (labels ambient:*).'
+)
 LEVELS = [logging.ERROR, logging.WARNING, logging.INFO, logging.DEBUG]
 DEFAULT = {'verbosity': 0, 'tz': None}
 CURRENT = dict(DEFAULT)     # during generation: the ambient being drawn for
